@@ -1379,7 +1379,7 @@ def c01(ctx):
         raise Broken("SettingsLaws: %s\n%s" % (laws["violated"], laws["out"][-1500:]))
     reqs = []
     for m in E:
-        sets = gen.valid_settings(m, rng, full=not quick)
+        sets = gen.valid_settings(m, rng, full=not quick) + gen.grammar_boundaries(m, rng) + gen.zero_settings(m, rng)
         phs = [b"", gen.rand_phrase(rng, 1), gen.rand_phrase(rng, 8), gen.rand_phrase(rng, 9, False), gen.rand_phrase(rng, 73),
                gen.rand_phrase(rng, 200)] if quick else gen.phrases(rng, full=False)
         for s in sets:
